@@ -41,6 +41,9 @@ var OpTemplates = []opTemplate{
 	{Text: "where b > 0 or isnull(a)", Needs: []string{"a", "b"}},
 	{Text: "filter not(a > 1)", Needs: []string{"a"}},
 	{Text: "summarize n = countif(a > 0), m = max(a) by b", Needs: []string{"a", "b"}, Sets: []string{"b", "n", "m"}},
+	{Text: "sort by a asc nulls last", Needs: []string{"a"}},
+	{Text: "top 2 by b desc nulls first", Needs: []string{"b"}},
+	{Text: "top 1 by a asc nulls last", Needs: []string{"a"}},
 }
 
 func hasAll(schema, needs []string) bool {
